@@ -13,6 +13,10 @@ mod mon_c03;
 mod readers;
 mod textgen;
 mod mon_c04;
+mod mon_c07;
+mod mon_c08;
+mod mon_c09;
+mod reffilter;
 mod refzinc;
 mod mon_c10;
 mod mon_c12;
@@ -105,6 +109,9 @@ fn main() {
         "C02" => mon_c02::run(&mut ctx),
         "C03" => mon_c03::run(&mut ctx),
         "C04" => mon_c04::run(&mut ctx),
+        "C07" => mon_c07::run(&mut ctx),
+        "C08" => mon_c08::run(&mut ctx),
+        "C09" => mon_c09::run(&mut ctx),
         "C10" => mon_c10::run(&mut ctx),
         "C12" => mon_c12::run(&mut ctx),
         "C19" => mon_c19::run(&mut ctx),
